@@ -91,6 +91,7 @@ def instances():
     out.append(P(a=1, f=Scale(2)))   # callable objects compare by value, like any other attribute value
     out.append(P(a=1, f=Scale(2)))
     out.append(P(a=1, f=Scale(3)))
+    out.append(P(a=5, f=Scale(2).__call__))          # a method bound to an object other than the instance
     out.append(P(a=4, ref=R))        # a spec class itself held as a value
     out.append(P(a=4, ref=Tagged(t=1)))      # a nested spec instance with a user-written __repr__
     p = P(a=2)
@@ -141,7 +142,7 @@ def check():
             if not (y == x and x == y):
                 return n, "deepcopy(x) == x fails for instance #%d: %r vs %r" % (i, x, y)
             import inspect
-            is_m = inspect.ismethod(getattr(x, "f", None))
+            is_m = inspect.ismethod(getattr(x, "f", None)) and x.f.__self__ is x
             kw = {a: getattr(x, a) for a in type(x).__spec_class__.attrs if hasattr(x, a) and not (a == "f" and is_m)}
             z = type(x)(**kw)
             if is_m:
